@@ -178,7 +178,7 @@ def replay(case, rec):
 
 
 def units(tier, seed):
-    n = 120 if tier == "quick" else 1200
+    n = 120 if tier == "quick" else 2500
     return [{"name": f"hyp{k:02d}", "kind": "hyp", "n": n} for k in range(16)]
 
 
